@@ -21,12 +21,13 @@ n = len(dirs)
 rounds = max(key(d)[0] for d in dirs)
 head = f"""### 11.6 Seeded changes: which check catches which, and what had to be strengthened
 
-{n} changes, {rounds} per property, each written by a fresh sub-agent from the property text
+{n} changes (six rounds over all twenty properties, a seventh over ten), each written by a fresh sub-agent from the property text
 alone plus a hint at an area (`tools/seed_prompts.py`, `tools/seed_hints_r*.json`; from round
 2 on the authors were also told what the earlier changes for that property were, so as to
 pick a different mechanism; round 4 steered them towards path-, order- and history-dependent
 faults, round 5 towards files no earlier change had touched, round 6 towards
-three-feature interactions, rare kinds and secondary boundaries). All {n} compile, pass the
+three-feature interactions, rare kinds and secondary boundaries, round 7 towards the second of
+something, defaults, values the caller still holds and relations between two quantities). All {n} compile, pass the
 pinned suite, and are detected by the quick tier of a check on every run:
 `tools/mutation_audit.sh` (scratch worktrees only, nothing is applied to `/repo`, evidence of
 the real tree is not touched; `vp run -- sh -c 'tools/mutation_audit.sh -j 2'` runs it from a
